@@ -4,7 +4,7 @@
 import copy
 from proofs import reg_C08, reg_C07
 _WANT8 = ['ec_write_byte', 'ec_write_byte_at_end', 'ec_enc_carry_out', 'ec_enc_bits', 'ec_enc_shrink', 'ec_enc_done', 'ec_enc_init']
-GROUPS = [copy.deepcopy(g) for g in reg_C08.GROUPS if g['name'] in _WANT8]
+GROUPS = [copy.deepcopy(g) for g in reg_C08.GROUPS if g['name'] in _WANT8 or g['name'].startswith('inv_collide_')]
 for g in GROUPS:
     g.pop('prop', None)
     g['what'] = 'buffer limit of the range encoder: ' + g['what'] + ' (writes only buf[0..storage), sets error instead of overrunning)'
@@ -14,3 +14,11 @@ for g in reg_C07.GROUPS:
         h['what'] = 'repacketizer output never exceeds maxlen, is refused cleanly when too small (bounded)'
         GROUPS.append(h)
 META = dict(reg_C08.META)
+
+# shared with C11 (same TU, same harness): only the assertions named in 'focus' are this property's; the others are decided under C11
+import copy as _copy
+from proofs import reg_C11 as _reg_C11
+for _g in _reg_C11.GROUPS:
+    if _g['name'] == 'encode_native_decisions_fs8000':
+        _h = _copy.deepcopy(_g); _h.pop('prop', None); _h['focus'] = ['^CBR', 'never reports more bytes', 'no output space']; _h['what'] = 'CBR size fixed by opus_encode_native: round(bitrate x duration / 8) clipped; OPUS_BITRATE_MAX fills the buffer; returned length within the buffer'
+        GROUPS.append(_h)
